@@ -94,10 +94,11 @@ PROPS = {
         nt_floor=0.2,
     ),
     "C05": dict(
-        stages=[dict(test="TestC05", quick=(16, 30), thorough=(16, 2000), timeout=dict(quick=900, thorough=3300))],
+        stages=[dict(test="TestC05", quick=(16, 30), thorough=(16, 2000), timeout=dict(quick=900, thorough=3300)),
+                dict(test="TestC05Genesis", quick=(4, 40), thorough=(8, 2000), timeout=dict(quick=900, thorough=3300))],
         rule="case = group (n 2-6, threshold, MaxDESize 3-8, SigningPeriod 1-4, MaxSigningAttempt 1-4, fee) + 10-60 late-bound ops "
              "(submit DEs / reset / signing request direct or via oracle result / partial signatures / activate / governance changes of MaxDESize, MaxSigningAttempt, FeePerSigner / end block, plus a constructed request-partial-timeout-retry sequence; a refused request is classified by its error: 'DE not found' is a violation, 'insufficient signers' only with fewer than threshold eligible members) on the real app; non-trivial = >=1 retry after time-out AND >=1 failed "
-             "(rejected / rolled back) signing creation AND >=1 reset while a signing is pending; distinct = hash of case JSON",
+             "(rejected / rolled back) signing creation AND >=1 reset while a signing is pending. Genesis: group (n 2-6, MaxDESize 3-40, 0-14 pairs per member from genesis) + 6-30 ops (submit 1..MaxDESize pairs / signing request / state export and import into a new application instance / end block), the on-chain queue of every member compared entry by entry with the FIFO model after every block and import, every assignment with the model's head; non-trivial = an export with more than 12 queued pairs AND a signing after an import; distinct = hash of case JSON",
         explanation="history invariant with a FIFO model per member: every assignment seen in request_signature events must be the "
                     "member's oldest queued pair, never assigned before, registered by that member, member active and queue non-empty; "
                     "after every block the on-chain queue must be an order-preserving subsequence of the model queue (nothing reset, "
